@@ -5,6 +5,7 @@
 #include "seqgen.hpp"
 #include <thread>
 #include <atomic>
+#include <sys/wait.h>
 using namespace vf;
 
 static std::atomic<int> g_inflight{0}; static std::atomic<int> g_maxflight{0}; static std::atomic<int> g_go{0};
@@ -18,7 +19,10 @@ static std::vector<std::string> run_script(const std::vector<ops::Op>& seq, int 
 }
 
 // case: n(threads) yield scripts(hex of per-thread ops, ';' separated)
+static bool g_poly_used = false; static std::string coldstart_threads(const Case& c);
 static std::string oracle(const Case& c) {
+    if (c.get("kind") == "coldstart") return coldstart_threads(c);
+    g_poly_used = true;
     Evidence& ev = W().ev; int n = (int)c.u("n", 2); int ym = (int)c.u("yield"); std::vector<std::vector<ops::Op>> scripts;
     { std::string all = c.get("scripts"); size_t p = 0; for (;;) { size_t e = all.find(';', p); scripts.push_back(ops::from_hex(all.substr(p, e == std::string::npos ? std::string::npos : e - p))); if (e == std::string::npos) break; p = e + 1; } }
     while ((int)scripts.size() < n) scripts.push_back(scripts[0]); scripts.resize((size_t)n);
@@ -44,9 +48,33 @@ static std::string oracle(const Case& c) {
     return "";
 }
 
+// First use under contention: a child forked before this process has evaluated any polynomial starts 8 threads at a barrier;
+// each creates a seed, encodes it and decodes it again.  Whatever the library builds lazily on first use is built here with
+// all threads inside the library at once.  The child fails on a ThreadSanitizer report (exit 77) or a wrong result.
+static std::string coldstart_threads(const Case& c) {
+    if (g_poly_used) return ""; int rounds = (int)c.u("rounds", 8); Evidence& ev = W().ev;
+    for (int r = 0; r < rounds; r++) {
+        fflush(stdout); fflush(stderr); pid_t ch = fork(); if (ch < 0) return "";
+        if (ch == 0) {
+            W().in_child = true; const int N = 8; std::atomic<int> go{0}; std::atomic<int> bad{0}; std::vector<std::thread> th; const lib::Registry& REG = lib::Registry::get();
+            for (int i = 0; i < N; i++) th.emplace_back([&, i]() {
+                deps::Kit& k = deps::kit(0); k.reset_all(); std::vector<uint8_t> rnd(19); for (int j = 0; j < 19; j++) rnd[j] = (uint8_t)(i * 37 + j * 11 + r); k.rand_bytes = rnd; k.clock = model::EPOCH + (uint64_t)i * model::STEP;
+                while (!go.load(std::memory_order_acquire)) { }
+                polyseed_data* s = nullptr; if (polyseed_create(0, &s) != 0) { bad++; return; } const lib::LangEntry& le = REG.at((size_t)(i + r)); std::string ph = lib::encode(s, le.lang, (unsigned)i);
+                lib::Image a = lib::store(s), b; int st = lib::decode_x(ph, (unsigned)i, le.lang, &b); if (st != 0 || a != b) bad++; polyseed_data* l = nullptr; if (polyseed_load(a.data(), &l) != 0) bad++; else polyseed_free(l); polyseed_free(s);
+            });
+            go.store(1, std::memory_order_release); for (auto& t : th) t.join(); _exit(bad.load() ? 1 : 0);
+        }
+        int st = 0; waitpid(ch, &st, 0);
+        if (!WIFEXITED(st) || WEXITSTATUS(st) != 0) return "eight threads using the library for the first time in a fresh process: " + std::string(WIFEXITED(st) && WEXITSTATUS(st) == 1 ? "a thread got a wrong result (its own seed did not round-trip / load)" : "the process ended abnormally (ThreadSanitizer report or signal)") + " in round " + std::to_string(r + 1);
+    }
+    ev.eval((uint64_t)rounds); ev.count("cold-start-under-contention", (uint64_t)rounds); ev.nt(c); return "";
+}
+
 static void run() {
     Args& a = W().args; { Case c; c.set("phase", "setup"); set_current(c); }
     deps::inject(0); polyseed_enable_features(7); lib::Registry::get(); model::Golden::get();
+    { Case c; c.set("kind", "coldstart"); c.set("rounds", (uint64_t)a.n(6, 40)); set_current(c); std::string m = oracle(c); if (!m.empty() && enum_fail(c, m)) return; }
     seqgen::Weights wt{{0, 0, 10, 8, 8, 8, 8, 10, 4, 4, 2, 5, 1, 1}};
     rc_run("c20-threads", a.n(25, 1500), 100, [&]() {
         int n = *rc::gen::element(2, 4, 8, 16, 4, 8); int ym = *rc::gen::element(0, 1, 1, 2, 5); std::string all;
